@@ -17,9 +17,19 @@ Proved for ALL inputs (no size bound):
   `unify_perm_invariant_common`        and no order fails when every requested name is locked by name;
   `F09g_witness` / `not_UnifyPermInvariant`  the full statement is FALSE: the error outcome depends on the order;
 * `installable_exact`                  building from a lock installs exactly the listed packages of the architecture;
-* relock: see the second half of the file (`constrain_locks`, `relock_*`, `F09a_witness`, `not_RelockFixpoint`).
+* relock (second half of the file; lemmas in Proofs/Lemmas/Relock.lean and RelockInv.lean):
+  `constrain_locks`              after `constrain` every package *named* like a lock entry but of another version is
+                                 disqualified; `constrain_sub` the disqualified set only grows;
+  `compare_prefers_existing`, `minFunc_prefers`   "already chosen with this version" is tested first and wins;
+  `depLoop_inv`, `getDeps_inv`, `go_inv`          every pick anywhere in the dependency resolution is a member;
+  `relock_fixpoint_partial`      universes without provides / install_if, closed set with unique (name, version):
+                                 every successful re-resolution of a lock returns exactly the locked set;
+  `F09a_witness`, `not_RelockFixpoint`            the full statement is FALSE (pin lost in the lock).
+  Not proved: that the re-resolution succeeds, and the fixpoint in the presence of provides (virtuals); there the
+  check relies on the round-trip oracle evaluated on every Go output (classes F09a–F09h).
 -/
 import Apko.Proofs.Lemmas.Lock
+import Apko.Proofs.Lemmas.RelockInv
 import Apko.Generated.Lock
 import Apko.Generated.Version
 
@@ -531,5 +541,168 @@ theorem not_UnifyPermInvariant : ¬ UnifyPermInvariant := by
     cases h2 : unify ["virt".toList] [gA, gC, gB] with
     | err => rw [h2] at hw; simp [isOk] at hw
     | ok b m => rw [h1, h2] at this; exact this
+
+/-! ## relock: re-resolving the lock -/
+
+def sameMembers (a b : List Pkg) : Prop := ∀ p, p ∈ a ↔ p ∈ b
+
+/-- the full statement: the per-architecture lock of a resolution re-resolves, alone, to the same package set.
+FALSE on the pinned tree (`F09a_witness`, and the other classes listed in KNOWN_FINDINGS.txt). -/
+def RelockFixpoint : Prop :=
+  ∀ (c : Cfg) (w : List Text) (r : Resolution), resolve c w [] = .ok r →
+    ∃ r', resolve c (lockOf w r.install) [] = .ok r' ∧ sameMembers r'.install r.install
+
+/-- `L` is a lock of `S`: one entry `name=version(@pin)` per member, read back by the constraint parser as
+(name, `=`, version) -/
+structure LockList (S : List Pkg) (L : List Text) : Prop where
+  sound : ∀ e ∈ L, (∀ x, e ≠ '!' :: x) ∧ ∃ p ∈ S, ∃ pin, parseConstraint e = ⟨p.name, p.version, .eq, pin⟩
+  complete : ∀ p ∈ S, ∃ e ∈ L, ∃ pin, parseConstraint e = ⟨p.name, p.version, .eq, pin⟩
+
+/-- T `relock_fixpoint_partial`: in a universe without `provides` and without `install_if`, for a set `S` of
+universe packages with distinct names whose dependencies are satisfied inside `S` (C02's closure) and whose
+(name, version) is unique in the universe, every *successful* re-resolution of a lock of `S` returns exactly `S` —
+for any number of packages, versions, indexes (pinned or not), dependency shapes and any order of the lock.
+The hypotheses are the negations of the finding classes: no provides ⊇ ¬F09b ∧ ¬F09h, no install_if = ¬F09c,
+uniqueness = ¬F09d ∧ ¬F09e (an unparsable version matches nothing), closure = ¬F09f; that the re-resolution
+succeeds at all is NOT proved here (F09a is a failure of exactly that). -/
+theorem relock_fixpoint_partial (c : Cfg) (S : List Pkg) (L : List Text) (ctx : Ctx c S)
+    (hnames : ∀ p ∈ S, ∀ q ∈ S, p.name = q.name → p = q)
+    (huniq : ∀ x ∈ c.u.all, ∀ p ∈ S, x.name = p.name → versionMatches x.version p.version = true → x = p)
+    (hL : LockList S L) (r' : Resolution) (h : resolve c L [] = .ok r') : sameMembers r'.install S := by
+  unfold resolve at h
+  split at h
+  · cases h
+  · next dq1 hcon =>
+    have hlocked : Locked c S dq1 := by
+      intro x hx ⟨p, hp, hpn⟩ hxs
+      obtain ⟨e, he, pin, hparse⟩ := hL.complete p hp
+      have hname : hasName c.u p.name = true := by
+        unfold hasName
+        exact List.any_eq_true.mpr ⟨p, ctx.sIn p hp, by simp⟩
+      have hnm : x ∈ c.nm p.name := by
+        unfold Cfg.nm
+        rw [nameMap_noprov _ _ _ ctx.noprov]
+        exact List.mem_filter.mpr ⟨hx, by simp [hpn]⟩
+      have hv : versionMatches x.version p.version = false := by
+        cases hvm : versionMatches x.version p.version with
+        | false => rfl
+        | true => exact absurd (huniq x hx p hp hpn.symm hvm ▸ hp) hxs
+      exact constrain_locks c e p.name p.version pin (hL.sound e he).1 hparse hname x hnm hpn.symm hv L [] dq1 he hcon
+    split at h
+    · cases h
+    · cases h
+    · next depMap dq2 hwl =>
+      have hdq : dq2 = dq1 := worldLoop_dq ctx _ _ _ _ _ _ hwl
+      have hws : ∀ w ∈ L, NamesMember S w := by
+        intro w hw
+        obtain ⟨_, p, hp, pin, hparse⟩ := hL.sound w hw
+        exact ⟨p, hp, by rw [hparse]⟩
+      obtain ⟨a1, _, a3⟩ := go_inv ctx L depMap ⟨dq2, [], []⟩ [] [] r' hws (by intro x hx; cases hx)
+        (by rw [hdq]; exact hlocked) h
+      intro p
+      constructor
+      · exact a1 p
+      · intro hp
+        obtain ⟨e, he, pin, hparse⟩ := hL.complete p hp
+        obtain ⟨y, hy, hyn⟩ := a3 e he
+        rw [hparse] at hyn
+        have : y = p := hnames y (a1 y hy) p hp hyn
+        exact this ▸ hy
+
+/-! ### F09a: the full statement is false -/
+
+def pk (id : Nat) (n v pin : String) (d : List String) : Pkg :=
+  { id := id, name := n.toList, version := v.toList, origin := [], repo := ("r-" ++ pin).toList, pin := pin.toList,
+    priority := 0, deps := d.map String.toList, provides := [], installIf := [] }
+
+def app1 := pk 0 "app" "1" "" []
+def app2 := pk 1 "app" "2" "edge" ["lib"]
+def lib2 := pk 2 "lib" "2" "edge" []
+def uF : Universe := [⟨[], "r-".toList, [app1]⟩, ⟨"edge".toList, "r-edge".toList, [app2, lib2]⟩]
+def cfgF : Cfg := { u := uF, order := ownNames uF, bothBad := .eq, installIfFixed := true, addedOrder := id }
+def wF : List Text := ["app@edge".toList]
+def lockF : List Text := ["app=2@edge".toList, "lib=2".toList]
+
+def installOf : Res Resolution → Option (List Pkg)
+  | .ok r => some r.install
+  | _ => none
+
+set_option maxRecDepth 100000 in
+/-- `packages: [app@edge]` resolves to {lib-2, app-2}, both from the `@edge` repository … -/
+theorem F09a_orig : installOf (resolve cfgF wF []) = some [lib2, app2] := by decide
+
+theorem sortS_eq_of {l l' : List Text} (hp : l'.Perm l) (hs : l'.Pairwise (fun a b => leT a b = true)) :
+    sortS l = l' :=
+  List.Perm.eq_of_pairwise (le := fun a b => leT a b = true) (fun a b _ _ => leT_antisymm a b)
+    (sortS_pairwise l) hs ((sortS_perm l).trans hp.symm)
+
+/-- … its lock is `[app=2@edge, lib=2]`: the dependency lost the pin (class `pinLost`) … -/
+theorem F09a_lock : lockOf wF [lib2, app2] = lockF ∧ pinLost wF [lib2, app2] = true := by
+  constructor
+  · unfold lockOf archList
+    apply sortS_eq_of
+    · exact List.Perm.swap _ _ []
+    · decide
+  · decide
+
+set_option maxRecDepth 100000 in
+/-- … and the lock does not re-resolve (`lib=2` has no candidate outside the pinned repository) -/
+theorem F09a_relock : installOf (resolve cfgF lockF []) = none := by decide
+
+/-- F09a, assembled -/
+theorem F09a_witness :
+    installOf (resolve cfgF wF []) = some [lib2, app2] ∧ lockOf wF [lib2, app2] = lockF ∧
+    installOf (resolve cfgF lockF []) = none := ⟨F09a_orig, F09a_lock.1, F09a_relock⟩
+
+theorem not_RelockFixpoint : ¬ RelockFixpoint := by
+  intro h
+  have ho := F09a_orig
+  cases hr : resolve cfgF wF [] with
+  | ok r =>
+    rw [hr] at ho
+    simp only [installOf, Option.some.injEq] at ho
+    obtain ⟨r', hr', _⟩ := h cfgF wF r hr
+    rw [ho, F09a_lock.1] at hr'
+    have := F09a_relock
+    rw [hr'] at this
+    cases this
+  | err => rw [hr] at ho; cases ho
+  | outOfFuel => rw [hr] at ho; cases ho
+
+/-! ### the hypotheses of `relock_fixpoint_partial` are satisfiable by a non-trivial value -/
+
+def eA := pk 0 "a" "1.0-r0" "" ["b>=1.5", "c"]
+def eB1 := pk 1 "b" "1.0-r0" "" []
+def eB2 := pk 2 "b" "2.0-r0" "" ["c"]
+def eC := pk 3 "c" "3-r1" "" []
+def uE : Universe := [⟨[], "r-".toList, [eA, eB1, eB2]⟩, ⟨[], "r-".toList, [eC]⟩]
+def cfgE : Cfg := { u := uE, order := ownNames uE, bothBad := .eq, installIfFixed := true, addedOrder := id }
+def lockE : List Text := ["a=1.0-r0".toList, "b=2.0-r0".toList, "c=3-r1".toList]
+
+def SE : List Pkg := [eC, eB2, eA]
+
+theorem head_ne_bang {e : Text} (h : e.head? ≠ some '!') : ∀ x, e ≠ '!' :: x := by
+  intro x hx; rw [hx] at h; exact h rfl
+
+set_option maxRecDepth 100000 in
+/-- non-vacuity: `[a]` resolves to `SE` (a version choice `b>=1.5`, a shared dependency, two indexes); all
+hypotheses of `relock_fixpoint_partial` hold for `SE` and its lock, and the lock does re-resolve to `SE` -/
+example : installOf (resolve cfgE ["a".toList] []) = some SE ∧
+    Ctx cfgE SE ∧ (∀ p ∈ SE, ∀ q ∈ SE, p.name = q.name → p = q) ∧
+    (∀ x ∈ cfgE.u.all, ∀ p ∈ SE, x.name = p.name → versionMatches x.version p.version = true → x = p) ∧
+    LockList SE lockE ∧ installOf (resolve cfgE lockE []) = some SE := by
+  refine ⟨by decide, ⟨by decide, by decide, by decide, by decide⟩, by decide, by decide, ⟨?_, ?_⟩, by decide⟩
+  · intro e he
+    simp only [lockE, List.mem_cons, List.not_mem_nil, or_false] at he
+    rcases he with rfl | rfl | rfl
+    · exact ⟨head_ne_bang (by decide), eA, by decide, [], by decide⟩
+    · exact ⟨head_ne_bang (by decide), eB2, by decide, [], by decide⟩
+    · exact ⟨head_ne_bang (by decide), eC, by decide, [], by decide⟩
+  · intro p hp
+    simp only [SE, List.mem_cons, List.not_mem_nil, or_false] at hp
+    rcases hp with rfl | rfl | rfl
+    · exact ⟨"c=3-r1".toList, by decide, [], by decide⟩
+    · exact ⟨"b=2.0-r0".toList, by decide, [], by decide⟩
+    · exact ⟨"a=1.0-r0".toList, by decide, [], by decide⟩
 
 end Apko.C09
